@@ -19,6 +19,7 @@ OFFSET = 3 * (ROUND - 1)
 WT = f"{BASE}/{ID}"
 OUT = f"{BASE}/{ID}-out"
 ENV = dict(os.environ, CARGO_NET_OFFLINE="true")
+CHECK_ROOT = os.environ.get("VERIF_EVAL_ROOT", "/verif")  # where ./check is run from (a frozen snapshot for first evaluations)
 
 
 def run(cmd, cwd, timeout=1800):
@@ -33,7 +34,7 @@ def main():
         n = re.findall(r"\d+", mf)[0]
         demo = f"{OUT}/demo{n}.rs"
         tag = f"{ID}-m{int(n) + OFFSET}"
-        res = {"id": tag, "round": ROUND, "property": ID, "source": "independent sub-agent, given only the property text and a scratch worktree"}
+        res = {"id": tag, "round": ROUND, "evaluated_with": CHECK_ROOT, "property": ID, "source": "independent sub-agent, given only the property text and a scratch worktree"}
         if not os.path.exists(demo):
             print(tag, "SKIP: no demo")
             continue
@@ -70,7 +71,7 @@ def main():
         checks = {}
         try:
             for cid in [ID] + EXTRA:
-                rc, o = run(f"./check {cid} quick", "/verif", timeout=3600)
+                rc, o = run(f"./check {cid} quick", CHECK_ROOT, timeout=3600)
                 sigs = re.findall(r"signature: (\S+)", o)
                 checks[cid] = {"exit": rc, "signatures": sigs[:8], "summary": (re.findall(rf"^{cid} quick:.*$", o, re.M) or [""])[0]}
                 print(f"   ./check {cid} quick -> exit {rc}", sigs[:4])
